@@ -40,6 +40,7 @@ void simos_reset_process(void)
     memset(g_os->fired, 0, sizeof g_os->fired);
     g_os->cap_hit = 0;
     g_os->hard_fault_fired = 0;
+    g_os->rng_perm_fired = 0;
     g_os->enospc_by_cap = 0;
     g_os->stdout_len = 0;
 }
